@@ -46,9 +46,15 @@ int g_num_frange;
 size_t g_num_slen;
 
 #ifdef VERIF_NATIVE
+#define NUM_EXACT 1
 #define MODEL_BOUND(what) do {} while (0)
 #else
 #define MODEL_BOUND(what) do { __CPROVER_assert(0, "MODEL-BOUND " what ": scan reached NUM_STRMAX"); __CPROVER_assume(0); } while (0)
+#endif
+
+#ifndef VERIF_NATIVE
+int nondet_int(void);
+uintmax_t nondet_uintmax(void);
 #endif
 
 static int
@@ -77,7 +83,7 @@ void
 num_scan(const char * s, int base)
 {
 	size_t i, k;
-	int d, stop;
+	int d, stop, ndig, allzero, first;
 	num_umath_t t;
 
 	g_num_nd = 0;
@@ -116,23 +122,57 @@ num_scan(const char * s, int base)
 
 	/* subject sequence: the longest run of digits of that base */
 	stop = 0;
+	ndig = 0;
+	allzero = 1;
+	first = 0;
 	for (k = 0; k < NUM_STRMAX; k++) {
 		d = num_digit(s[i]);
 		if (d >= base) {
 			stop = 1;
 			break;
 		}
+#ifdef NUM_EXACT
 		/* mag * base + d < 2^64 * 36 + 36 < 2^72: exact in the ghost type */
 		t = (num_umath_t)g_num_mag * (num_umath_t)(unsigned)base + (num_umath_t)(unsigned)d;
 		if (g_num_ovf || t > (num_umath_t)UINTMAX_MAX)
 			g_num_ovf = 1;
 		else
 			g_num_mag = (uintmax_t)t;
+#endif
+		if (ndig == 0)
+			first = d;
+		if (d != 0)
+			allzero = 0;
+		if (ndig < 2)
+			ndig++;
 		g_num_nd = 1;
 		i++;
 	}
 	if (!stop)
 		MODEL_BOUND("strto*max");
+#ifndef NUM_EXACT
+	/*
+	 * The magnitude sum(digit_k * base^k) of a numeral of two or more digits is left uninterpreted (an
+	 * arbitrary 64-bit value or "too large"): chains of symbolic 72-bit multiplications do not terminate in
+	 * the SAT back end.  What is kept: no digits -> 0; a single digit is its own value; the magnitude is zero
+	 * exactly when every digit is '0' (so "-0", "000" are zero and "-1" is not).
+	 */
+	if (g_num_nd) {
+		g_num_mag = nondet_uintmax();
+		g_num_ovf = nondet_int() ? 1 : 0;
+		if (ndig == 1) {
+			g_num_mag = (uintmax_t)first;
+			g_num_ovf = 0;
+		}
+		if (allzero) {
+			g_num_mag = 0;
+			g_num_ovf = 0;
+		} else if (!g_num_ovf)
+			__CPROVER_assume(g_num_mag != 0);
+		if (g_num_ovf)
+			g_num_mag = 0;
+	}
+#endif
 
 	if (g_num_nd)
 		g_num_end = i;
